@@ -85,7 +85,7 @@ def trace_check(work, out, jobs, monitors, spec="TraceProps", tag="t", extra_env
             for mon in mons:
                 seqs = [s for s, m in v["viol"] if m == mon]
                 ev = next((e for e in evs if e.get("seq") == seqs[0]), {})
-                key = key_of(job, mon, ev, evs) if key_of else "%s@%s" % (mon, job.get("fam", v["job"]))
+                key = key_of(job, mon, ev, evs) if key_of and not str(job.get("fam", "")).startswith("pool:") else "%s@%s" % (mon, job.get("fam", v["job"]))
                 payload = dict(property=out.prop, monitor=mon, spec=spec, monitors=monitors, seq=seqs[0],
                                job=explicit_job(job, evs) if job else None,
                                event={k: x for k, x in ev.items() if k != "snap"},
